@@ -1050,7 +1050,18 @@ fn run_simpson_depth(rep: &mut Report, fun: &Fun, a: f64, b: f64, tol: f64, tigh
     let lreq = depth.map(|d| d as i64).unwrap_or(-1);
     let n_max = match (depth, tight_nmax) {
         (Some(d), Some(extra)) => (d as i64 + 1 + extra).max(1) as usize,
-        _ => 60,
+        // no tight limit: 60, or (every eighth case, decided by the data) an astronomically large
+        // limit - the depth limit is a bound, not an amount of work or memory to provide for
+        _ => {
+            if (a.to_bits() >> 9) % 8 == 0 {
+                rep.count("simpson/cases_with_an_astronomical_depth_limit", 1);
+                // (usize::MAX: an implementation that pre-allocates for it panics with a capacity overflow, which
+                // the harness can catch; merely huge values would abort the process on allocation failure)
+                usize::MAX
+            } else {
+                60
+            }
+        }
     };
     let possibly_insufficient = matches!((depth, tight_nmax), (Some(_), Some(e)) if e < 0);
     let c = Call { rt: Rt::Simpson, a, b, tol, n: n_max };
@@ -1070,7 +1081,7 @@ fn run_simpson_depth(rep: &mut Report, fun: &Fun, a: f64, b: f64, tol: f64, tigh
     }
     let v = Verdict { in_class, bound, ratio_name: "err_over_tol(degree<=5)" };
     let err = judge(rep, &c, fun, &g, &obs, exact, &v, &|j| j.set("depth_at_which_every_panel_is_accepted", lreq));
-    if in_class && n_max < 60 {
+    if in_class && n_max < 60 && tight_nmax.is_some() {
         rep.count("simpson/in_class_tight_n_max", 1);
     }
     // work bound (smooth family and polynomials alike): textbook scheme on the same integrand
